@@ -123,6 +123,32 @@ pub fn run_client(db: &DB, rec: &Recorder, thread: u32, ops: &[COp], rng: &mut R
     errors
 }
 
+/// A client that is not part of the recorded history: it asks for manual compactions (whole range,
+/// sub-ranges, open ends) while the others read and write. A manual compaction starts by forcing
+/// the memtable out - through the writers' queue, in competition with the flush that may be
+/// running - so it is one more way for acknowledged writes to get lost or reads to go stale.
+fn spawn_manual_compactor(db: &Arc<DB>, keys: &[Vec<u8>], rng: &mut Rng, calls: u64) -> std::thread::JoinHandle<u64> {
+    let (db, keys) = (Arc::clone(db), keys.to_vec());
+    let mut trng = rng.fork("manual-compactor");
+    std::thread::Builder::new().name("c05-manual-compactor".into()).spawn(move || {
+        set_role(9);
+        let mut done = 0;
+        for _ in 0..calls {
+            std::thread::sleep(Duration::from_micros(trng.range(0, 3000)));
+            let (a, b) = match trng.below(4) {
+                0 | 1 => (None, None),
+                2 => (Some(trng.pick(&keys).clone()), None),
+                _ => (None, Some(trng.pick(&keys).clone())),
+            };
+            let _g = watch::enter("compact_range(manual compactor)");
+            db.compact_range(a.as_deref()..b.as_deref());
+            done += 1;
+        }
+        drop(db);
+        done
+    }).unwrap()
+}
+
 pub fn gen_ops(rng: &mut Rng, keys: &[Vec<u8>], n: usize, read_share: u64) -> Vec<COp> {
     (0..n)
         .map(|_| {
@@ -348,6 +374,7 @@ fn scenario_timed_park(out: &mut CaseOut, rng: &mut Rng, idx: u64, tier: &str) {
             e
         }).unwrap());
     }
+    let manual = if rng.chance(0.5) { { let calls = rng.range(1, 4); Some(spawn_manual_compactor(&db, &keys, rng, calls)) } } else { None };
     out.add("windows_attempted", 1);
     let arrived = d.wait_arrived(gate, Duration::from_secs(3));
     let before = rec.len();
@@ -360,6 +387,9 @@ fn scenario_timed_park(out: &mut CaseOut, rng: &mut Rng, idx: u64, tier: &str) {
     let mut errors = 0;
     for h in handles {
         errors += h.join().unwrap_or(0);
+    }
+    if let Some(h) = manual {
+        out.add("manual_compactions_concurrent_with_clients", h.join().unwrap_or(0));
     }
     wait_quiet(&db, Duration::from_secs(10));
     final_reads(&db, &rec, &keys);
@@ -491,9 +521,13 @@ fn scenario_perturbation(out: &mut CaseOut, rng: &mut Rng, tier: &str) {
             e
         }).unwrap());
     }
+    let manual = if rng.chance(0.5) { { let calls = rng.range(1, 5); Some(spawn_manual_compactor(&db, &keys, rng, calls)) } } else { None };
     let mut errors = 0;
     for h in handles {
         errors += h.join().unwrap_or(0);
+    }
+    if let Some(h) = manual {
+        out.add("manual_compactions_concurrent_with_clients", h.join().unwrap_or(0));
     }
     d.clear_delays();
     wait_quiet(&db, Duration::from_secs(10));
